@@ -26,10 +26,11 @@ MAX_STEPS = 40
 def algo_slack(spec, alg, W):
     """The eps-slack the algorithm's rule prescribes, recomputed independently of the instance's attributes."""
     algo, eps = spec["algo"], spec["eps"]
-    Wn = W / np.linalg.norm(W, axis=1)[:, None]
+    nrm = np.linalg.norm(W, axis=1)
+    Wn = W / nrm[:, None]
     if algo in ("PaVeBa", "PaVeBaGP", "PaVeBaPartialGP"):
         al, _, _ = geom.cone_alpha(Wn)
-        return eps * al
+        return eps * al * nrm  # alpha of the cone matrix as given (rows need not be unit vectors)
     if algo in ("VOGP", "VOGP_AD"):
         z, _, _ = geom.ldp(Wn, np.ones(len(Wn)))
         return eps * z / np.linalg.norm(z)
